@@ -33,7 +33,7 @@ def _fast_signal_names():
 
 
 _fast_signal_names()
-MAX_ALLOC_ITERS = 40000      # histories whose first-fit loop would run longer are not generated
+MAX_ALLOC_ITERS = 12000      # histories whose first-fit loop would run longer are not generated
 
 
 class HistoryTimeout(Exception):
@@ -49,20 +49,22 @@ def time_limit(seconds):
     def handler(signum, frame):
         raise HistoryTimeout("no answer within %ss" % seconds)
 
+    # CPU time of this process (ITIMER_PROF), not wall time: the machine is shared and a loaded scheduler must
+    # not turn a legitimate 0.5 s first-fit search into a time-out
     try:
-        old = signal.signal(signal.SIGALRM, handler)
+        old = signal.signal(signal.SIGPROF, handler)
     except ValueError:          # not in the main thread: run unprotected
         yield
         return
-    signal.setitimer(signal.ITIMER_REAL, seconds)
+    signal.setitimer(signal.ITIMER_PROF, seconds)
     try:
         yield
     finally:
-        signal.setitimer(signal.ITIMER_REAL, 0)
-        signal.signal(signal.SIGALRM, old)
+        signal.setitimer(signal.ITIMER_PROF, 0)
+        signal.signal(signal.SIGPROF, old)
 
 
-OP_TIME_LIMIT = 3.0
+OP_TIME_LIMIT = 8.0     # CPU seconds per operation (legitimate operations need < 0.5 s)
 
 
 def win(size):
@@ -416,6 +418,28 @@ def gen_bus_history(rng, nops=None, cfg=None):
         io_base = rng.choice([top // 2, focus, top - top // 4])
     names = list(range(1, 10))
     ops = []
+    if rng.random() < 0.08:
+        # point-to-point shapes: one master, one slave; do_finalize looks at the SLAVE's region origin, not at the
+        # first region of the dict (a slave-less / linker region at 0 declared first must not short-cut decoding)
+        sz = rng.choice([gran, 2 * gran, 3 * gran, gran + 1]) or 1
+        at0 = ("R", 1, 0, 0, sz, 1, int(rng.random() < 0.4), 1)
+        off = win(sz) * rng.randint(1, 4) + (rng.choice([0, 0, gran // 2, 1]) if rng.random() < 0.5 else 0)
+        slave_far = ("S", 2, off, sz, 1, 0, 1)
+        shape = rng.randrange(4)
+        if shape == 0:
+            pre = [("C", 0), at0, slave_far, ("M", 1)]            # region at 0 first, slave elsewhere
+        elif shape == 1:
+            pre = [("C", 0), ("R", 2, 0, off, sz, 1, 0, 1), ("S", 1, 0, sz, 1, 0, 1), ("M", 1)]   # slave at 0, declared second
+        elif shape == 2:
+            pre = [("C", 0), at0, ("M", 1), ("S", 1)]              # the region at 0 is the slave's
+        else:
+            pre = [("C", 0), slave_far, at0, ("M", 1)]             # slave elsewhere first, region at 0 later
+        for op in pre:
+            ops.append(op)
+            run.apply(op)
+        if rng.random() < 0.6:
+            return aw, dw, ops, run
+        nops = rng.randint(1, 3)
     for t in range(nops):
         u = rng.random()
         name = rng.choice(names[:4]) if rng.random() < 0.12 else rng.choice(names)
